@@ -131,6 +131,27 @@ def run(ctx: core.Ctx):
     nlib = 0
     for plan, res in lib:
         nlib += judge_lib(ctx, plan, res)
+    # families for default rules outside the TLA+ menu (BatchNormalization fusions with non-default epsilon, new-domain rules)
+    for fam, res in optgen.direction_family(ctx, want_abs=False):
+        name = fam[0]
+        if res is core.HANG or isinstance(res, core.MachineryErrorResult):
+            raise core.MachineryError(f"family {name}: {res}")
+        if res["skip"]:
+            raise core.MachineryError(f"family model {name} is not a valid/executable model: {res['skip']}")
+        for v in res["variants"]:
+            ctx.add("evaluations")
+            ctx.add("family_runs")
+            if v["changed"]:
+                ctx.add("family_runs_where_a_rule_fired")
+            if v["exc"]:
+                ctx.add("entry_point_raised_not_judged_here")
+                continue
+            for k, symptom, detail in v["fail"]:
+                ctx.report({"kind": "family", "name": name, "variant": v["name"], "probe": k, "symptom": symptom, "detail": detail},
+                           f"family {name}, {v['name']}: feed {k}: {symptom}: {detail}")
+                break
+    if not ctx.coverage.get("family_runs_where_a_rule_fired"):
+        raise core.MachineryError("vacuity: no rule fired on any family model")
     ctx.set("library_models", len(lib))
     ctx.set("library_runs", nlib)
     ctx.set("distinct_nontrivial", nontriv)
@@ -157,6 +178,9 @@ def replay(ctx, path):
                 "raised": "", "outs": c["expect"], "ops": [], "world": c.get("world")}
         r = optgen.replay_case((0, case, [c["variant"]], False))
         print(json.dumps(r, indent=1, default=str)[:4000])
+    elif c.get("kind") == "family":
+        fam = [f for f in optgen.family_models(ctx) if f[0] == c["name"]]
+        print(json.dumps(optgen.replay_family(fam[0][:3] + ([c["variant"]], fam[0][4], False)), indent=1, default=str)[:4000] if fam else "family model not found for this seed")
     elif c.get("kind") == "library":
         r = optgen.replay_library((c["rel"], [c["mode"]] if "mode" in c else c["modes"], [c["variant"]] if "variant" in c else c["variants"], False))
         print(json.dumps(r, indent=1, default=str)[:4000])
